@@ -1,13 +1,1648 @@
-//! C04 — not implemented yet (stub so that props/mod.rs never has to change).
-use crate::engine::PropSpec;
+//! C04 — Stored data is authenticated ciphertext; tampering is always detected.
+//!
+//! Four sub-checks:
+//! * "plaintext": histories (backup / forget / prune) over sources that carry high-entropy canaries
+//!   in file contents, names, link targets, host name, tag, label and the backup path. After every
+//!   operation the raw bytes of every stored file are scanned for every canary, every message
+//!   (repository file, pack header, blob) is decrypted with the independent decoder and its nonce
+//!   goes into a set that must never see a repeat — also across a second repository initialised
+//!   with the same master key.
+//! * "crypto": direct properties of the crypto framing through the hooks, differential against the
+//!   independent decoder / encoder; mutation scripts; garbage never panics.
+//! * "tamper": a small repository x every stored file x {bit flips, truncations, extension, swap
+//!   with a sibling}: every read that touches the file fails or returns the model content.
+//! * "password": histories of add_key / delete_key / open with right, wrong, removed passwords, the
+//!   master key and tampered key files against a model of the live passwords.
+
+use std::{
+    collections::{BTreeMap, BTreeSet, HashMap},
+    num::NonZeroU32,
+    sync::Arc,
+};
+
+use proptest::prelude::*;
+use rustic_core::{
+    BackupOptions, Credentials, FileType, Id, KeyOptions, Repository, WriteBackend,
+    repofile::{BlobType, KeyId, SnapshotFile},
+    verif::{Codec, decrypt, encrypt, pack_header_from_binary},
+};
+use serde::{Deserialize, Serialize};
+use serde_json::Value;
+use vpcore::fmt::{
+    self, BType, Id32, Key64, PackInfo, TrailerEntry, open_message, parse_pack, seal_message, sha256,
+};
+
+use crate::{
+    engine::{Ctx, DynSub, Outcome, PropSpec, Sub, guarded, pick_idx},
+    r#gen::{Edit, TreeParams, apply_edit, tree},
+    history::{HOp, LiveSnap, World, hop},
+    membe::{Storage, id_bytes, tidx},
+    model::{Content, Flat, MKind, MNode, Piece, ReadSchedule, flatten, splitmix},
+    repo::{
+        CmpOpts, ChunkerCfg, PackCfg, RepoCfg, RepoOpen, backends, backup_tree, compare, estr,
+        force_opts, key64_of, open_ids, open_repo, read_snapshot, repo_cfg, repo_opts,
+        snap_template,
+    },
+};
+
+const KEY_T: u8 = 2;
+
+fn hex8(id: &[u8]) -> String {
+    hex::encode(&id[..4.min(id.len())])
+}
+
+fn tname(t: u8) -> &'static str {
+    match t {
+        0 => "config",
+        1 => "index",
+        2 => "key",
+        3 => "snapshot",
+        _ => "pack",
+    }
+}
+
+// ================================================================== (a) plaintext / nonces
+
+#[derive(Debug, Clone, Serialize, Deserialize)]
+pub struct PlainCase {
+    pub cfg: RepoCfg,
+    pub tree: MNode,
+    pub ops: Vec<HOp>,
+    pub canary_seed: u64,
+    /// run the same history on a second repository initialised with the same master key
+    pub twin: bool,
+}
+
+const CANARY_LEN: usize = 24;
+
+/// 24 bytes derived from (seed, index); `alnum` = only [A-Za-z0-9] (survives JSON escaping)
+fn canary(seed: u64, idx: u64, alnum: bool) -> Vec<u8> {
+    const AL: &[u8; 62] = b"ABCDEFGHIJKLMNOPQRSTUVWXYZabcdefghijklmnopqrstuvwxyz0123456789";
+    let mut out = Vec::with_capacity(CANARY_LEN);
+    let mut z = splitmix(seed ^ idx.wrapping_mul(0xD6E8_FEB8_6659_FD93));
+    while out.len() < CANARY_LEN {
+        z = splitmix(z);
+        for b in z.to_le_bytes() {
+            if out.len() == CANARY_LEN {
+                break;
+            }
+            if alnum {
+                // 62 * 4 = 248: rejection keeps the distribution uniform
+                if b < 248 {
+                    out.push(AL[usize::from(b) % 62]);
+                }
+            } else {
+                out.push(b);
+            }
+        }
+    }
+    out
+}
+
+/// multi-pattern search: all patterns have the same length >= 4
+struct Scanner {
+    pats: Vec<Vec<u8>>,
+    first2: Vec<bool>,
+    by4: HashMap<[u8; 4], Vec<usize>>,
+}
+
+impl Scanner {
+    fn new(pats: Vec<Vec<u8>>) -> Self {
+        let mut first2 = vec![false; 1 << 16];
+        let mut by4: HashMap<[u8; 4], Vec<usize>> = HashMap::new();
+        for (i, p) in pats.iter().enumerate() {
+            first2[usize::from(p[0]) << 8 | usize::from(p[1])] = true;
+            by4.entry([p[0], p[1], p[2], p[3]]).or_default().push(i);
+        }
+        Self { pats, first2, by4 }
+    }
+
+    /// calls `hit(pattern index, offset)` for every occurrence
+    fn scan(&self, data: &[u8], mut hit: impl FnMut(usize, usize)) {
+        if data.len() < CANARY_LEN {
+            return;
+        }
+        for i in 0..=data.len() - CANARY_LEN {
+            if !self.first2[usize::from(data[i]) << 8 | usize::from(data[i + 1])] {
+                continue;
+            }
+            let k = [data[i], data[i + 1], data[i + 2], data[i + 3]];
+            if let Some(list) = self.by4.get(&k) {
+                for &pi in list {
+                    if data[i..].starts_with(&self.pats[pi]) {
+                        hit(pi, i);
+                    }
+                }
+            }
+        }
+    }
+}
+
+/// put a canary into every name, link target and (non-hardlinked) file content, and the root name
+fn plant(root: &mut MNode, seed: u64, out: &mut Vec<Vec<u8>>) {
+    fn rec(n: &mut MNode, seed: u64, out: &mut Vec<Vec<u8>>) {
+        let c = canary(seed, out.len() as u64, true);
+        n.name.truncate(100);
+        n.name.extend_from_slice(&c);
+        out.push(c);
+        let links = n.links;
+        match &mut n.kind {
+            MKind::File { content } => {
+                if links <= 1 {
+                    let c = canary(seed, out.len() as u64, false);
+                    let at = (splitmix(seed ^ out.len() as u64) % (content.len() as u64 + 1)) as usize;
+                    *content = content.insert(at, Content::lit(c.clone()));
+                    out.push(c);
+                }
+            }
+            MKind::Symlink { target } => {
+                let c = canary(seed, out.len() as u64, true);
+                target.truncate(100);
+                target.extend_from_slice(&c);
+                out.push(c);
+            }
+            MKind::Dir { children } => {
+                for ch in children {
+                    rec(ch, seed, out);
+                }
+            }
+        }
+    }
+    rec(root, seed, out);
+    // hardlink groups: every member keeps the (unchanged) shared content
+    root.normalise();
+}
+
+fn plain_strategy(ctx: &Ctx) -> BoxedStrategy<PlainCase> {
+    let len = if ctx.tier.is_thorough() { 8 } else { 4 };
+    repo_cfg()
+        .prop_flat_map(move |cfg| {
+            let mut p = super::c07::params(&cfg);
+            p.file_cap = 80_000;
+            (
+                Just(cfg),
+                tree(p),
+                prop::collection::vec(hop(p, false), 1..=len),
+                any::<u64>(),
+                prop::bool::weighted(0.35),
+            )
+        })
+        .prop_map(|(cfg, tree, ops, canary_seed, twin)| PlainCase {
+            cfg,
+            tree,
+            ops,
+            canary_seed,
+            twin,
+        })
+        .boxed()
+}
+
+struct Meta {
+    host: String,
+    tag: String,
+    label: String,
+}
+
+/// backup of the (edited) world tree with canaries in host name, tag and label
+fn canary_backup(w: &mut World, edits: &[Edit], parent: bool, m: &Meta) -> Result<(), String> {
+    w.tick += 1;
+    for e in edits {
+        _ = apply_edit(&mut w.tree, e, w.tick);
+    }
+    let repo = open_ids(&w.storage, &w.cfg)?;
+    w.clock += 100;
+    let opts: BackupOptions = if parent { BackupOptions::default() } else { force_opts() };
+    let snap = backup_tree(
+        &repo,
+        &w.tree,
+        &ReadSchedule::default(),
+        &opts,
+        snap_template(w.clock, &m.host, &m.tag, &m.label),
+    )?;
+    w.live.push(LiveSnap {
+        snap,
+        model: Arc::new(flatten(&w.tree)),
+        pending_recovery: false,
+    });
+    Ok(())
+}
+
+/// every message of one stored file: (where, message bytes, plaintext)
+fn messages_of(key: &Key64, t: u8, id: &Id, raw: &[u8]) -> Result<Vec<(String, Vec<u8>, Vec<u8>)>, String> {
+    let what = format!("{} {}", tname(t), hex8(&id_bytes(id)));
+    if t != 4 {
+        let plain = fmt::decode_file(key, raw)
+            .map_err(|e| format!("{what}: the independent decoder cannot authenticate / decode the file: {e}"))?;
+        return Ok(vec![(what, raw.to_vec(), plain)]);
+    }
+    if sha256(raw) != id_bytes(id) {
+        return Err(format!("{what}: name is not the SHA-256 of the content"));
+    }
+    let info: PackInfo = parse_pack(key, raw).map_err(|e| format!("{what}: trailer does not authenticate / decode: {e}"))?;
+    let n = raw.len();
+    let hl = info.header_len as usize;
+    let mut out = Vec::new();
+    let mut expect = 0u64;
+    for (i, e) in info.entries.iter().enumerate() {
+        if u64::from(e.offset) != expect {
+            return Err(format!("{what}: trailer entries do not tile the blob area"));
+        }
+        expect += u64::from(e.length);
+        let plain = fmt::decode_blob(key, raw, e).map_err(|err| format!("{what} blob #{i}: does not authenticate / decode: {err}"))?;
+        if sha256(&plain) != e.id {
+            return Err(format!("{what} blob #{i}: plaintext does not hash to its id"));
+        }
+        let s = e.offset as usize;
+        out.push((format!("{what} blob #{i}"), raw[s..s + e.length as usize].to_vec(), plain));
+    }
+    if expect != (n - 4 - hl) as u64 {
+        return Err(format!("{what}: the trailer covers {expect} bytes, the blob area has {}", n - 4 - hl));
+    }
+    let hmsg = &raw[n - 4 - hl..n - 4];
+    let hplain = open_message(key, hmsg).map_err(|e| format!("{what}: header: {e}"))?;
+    out.push((format!("{what} header"), hmsg.to_vec(), hplain));
+    Ok(out)
+}
+
+#[derive(Default)]
+struct NonceBook {
+    /// nonce -> (hash of the whole message, where it was first seen)
+    seen: BTreeMap<[u8; 16], (Id32, String)>,
+    /// (repository, type, id) already examined
+    done: BTreeSet<(u8, u8, Id)>,
+    copies: u64,
+    packs: BTreeSet<(u8, Id)>,
+    /// canaries that were found in *decrypted* content (the scan is not vacuous)
+    found_plain: BTreeSet<usize>,
+}
+
+/// examine every file of the storage that was not examined before
+fn examine(
+    book: &mut NonceBook,
+    scanner: &Scanner,
+    repo_no: u8,
+    storage: &Arc<Storage>,
+    key: &Key64,
+    raw_copies_allowed: bool,
+) -> Result<(), String> {
+    for ((t, id), raw) in storage.files() {
+        if t == KEY_T {
+            continue;
+        }
+        if t != 0 && !book.done.insert((repo_no, t, id)) {
+            continue;
+        }
+        let mut hit: Option<(usize, usize)> = None;
+        scanner.scan(&raw, |pi, at| {
+            if hit.is_none() {
+                hit = Some((pi, at));
+            }
+        });
+        if let Some((pi, at)) = hit {
+            return Err(format!(
+                "repository {repo_no}: {} {} contains source plaintext (canary #{pi} of the case at byte {at} of {})",
+                tname(t),
+                hex8(&id_bytes(&id)),
+                raw.len()
+            ));
+        }
+        if t == 4 {
+            _ = book.packs.insert((repo_no, id));
+        }
+        for (loc, msg, plain) in messages_of(key, t, &id, &raw).map_err(|e| format!("repository {repo_no}: {e}"))? {
+            let found = &mut book.found_plain;
+            scanner.scan(&plain, |pi, _| {
+                _ = found.insert(pi);
+            });
+            let mut nonce = [0u8; 16];
+            nonce.copy_from_slice(&msg[..16]);
+            let h = sha256(&msg);
+            let loc = format!("repository {repo_no} {loc}");
+            match book.seen.get(&nonce) {
+                None => _ = book.seen.insert(nonce, (h, loc)),
+                Some((h0, loc0)) => {
+                    if t == 0 && *loc0 == loc && *h0 == h {
+                        continue; // the config slot, seen again
+                    }
+                    if *h0 == h && raw_copies_allowed {
+                        book.copies += 1;
+                        continue;
+                    }
+                    return Err(format!(
+                        "nonce {} is used by two messages: {loc0} and {loc}{}",
+                        hex::encode(nonce),
+                        if *h0 == h { " (identical ciphertext, but nothing in this history copies messages verbatim)" } else { "" }
+                    ));
+                }
+            }
+        }
+    }
+    Ok(())
+}
+
+fn run_plain(c: &PlainCase, _ctx: &Ctx) -> Outcome {
+    let mut out = Outcome::pass();
+    macro_rules! fail {
+        ($($arg:tt)*) => {{
+            out.failure = Some(format!($($arg)*));
+            return out;
+        }};
+    }
+    let mut tree = c.tree.clone();
+    let mut canaries = Vec::new();
+    plant(&mut tree, c.canary_seed, &mut canaries);
+    let mut meta_c = Vec::new();
+    for _ in 0..3 {
+        let x = canary(c.canary_seed, (canaries.len() + meta_c.len()) as u64, true);
+        meta_c.push(String::from_utf8(x).expect("alnum"));
+    }
+    let meta = Meta {
+        host: format!("h{}", meta_c[0]),
+        tag: meta_c[1].clone(),
+        label: meta_c[2].clone(),
+    };
+    canaries.extend(meta_c.iter().map(|s| s.as_bytes().to_vec()));
+    let scanner = Scanner::new(canaries);
+    let key = c.cfg.key64();
+
+    let mut worlds = Vec::new();
+    for _ in 0..(if c.twin { 2 } else { 1 }) {
+        match World::new(&c.cfg, &tree) {
+            Ok(w) => worlds.push(w),
+            Err(e) => fail!("{e}"),
+        }
+    }
+    let mut book = NonceBook::default();
+    let first = HOp::Backup { edits: vec![], parent: false };
+    let mut fast_seen = false;
+    let compression_on = c.cfg.version >= 2 && c.cfg.compression != Some(0);
+    out = out
+        .class(if compression_on { "compression_on" } else { "compression_off" })
+        .class_if(c.twin, "twin_repository_same_key");
+    for (i, op) in std::iter::once(&first).chain(c.ops.iter()).enumerate() {
+        out = out.class(format!("op_{}", super::c02::op_name(op)));
+        if let HOp::Prune(p) = op {
+            fast_seen |= p.fast_repack;
+        }
+        for (wi, w) in worlds.iter_mut().enumerate() {
+            let r = match op {
+                HOp::Backup { edits, parent } => canary_backup(w, edits, *parent, &meta),
+                other => w.step(other).map(|_| ()),
+            };
+            if let Err(e) = r {
+                fail!("repository {wi} op #{i} {}: {e}", super::c02::op_name(op));
+            }
+            if let Err(e) = examine(&mut book, &scanner, wi as u8, &w.storage, &key, fast_seen) {
+                fail!("after op #{i} {}: {e}", super::c02::op_name(op));
+            }
+        }
+    }
+    // the history itself was sane: the last state reads back
+    for w in &worlds {
+        if let Err(e) = w.verify_snapshots() {
+            fail!("at the end of the history: {e}");
+        }
+    }
+    let nonces = book.seen.len();
+    let packs = book.packs.len();
+    out.nontrivial = packs >= 2 && nonces >= 50 && !book.found_plain.is_empty();
+    out.class_if(nonces >= 50, "nonces>=50")
+        .class_if(nonces >= 500, "nonces>=500")
+        .class_if(fast_seen, "fast_repack_in_history")
+        .class_if(book.copies > 0, "verbatim_copies_seen")
+        .count("nonces", nonces as u64)
+        .count("packs", packs as u64)
+        .count("canaries_confirmed_in_decrypted_content", book.found_plain.len() as u64)
+}
+
+// ================================================================== (b) direct crypto properties
+
+#[derive(Debug, Clone, Serialize, Deserialize)]
+pub enum Mutn {
+    /// flip one bit; region 0 = nonce, 1 = body, 2 = tag
+    Flip { region: u8, sel: u16 },
+    /// keep the first `sel`-selected bytes (strictly fewer than all)
+    Truncate { sel: u16 },
+    /// keep 0, 1, 15, 16, 31 bytes or drop the last one
+    TruncateTo(u8),
+    Extend(Vec<u8>),
+    /// first part of this message, rest of a second valid message
+    Splice { a: u16, b: u16 },
+    /// decrypt with a different key
+    OtherKey(u64),
+}
+
+#[derive(Debug, Clone, Serialize, Deserialize)]
+pub enum Garbage {
+    Raw(Vec<u8>),
+    Rand { seed: u64, len: u16 },
+    /// a valid zstd frame of the case's second plaintext with one byte changed
+    Frame { pos: u16, xor: u8 },
+}
+
+#[derive(Debug, Clone, Serialize, Deserialize)]
+pub struct CryptoCase {
+    pub key_seed: u64,
+    pub plain: Piece,
+    pub other: Piece,
+    /// None = no compression, else the zstd level
+    pub level: Option<i32>,
+    pub nonce_seed: u64,
+    pub muts: Vec<Mutn>,
+    /// wrong uncompressed lengths to try
+    pub wrong_len: Vec<u32>,
+    pub garbage: Garbage,
+}
+
+fn sized_piece(max_big: u32) -> BoxedStrategy<Piece> {
+    let len = prop_oneof![
+        3 => prop::sample::select(vec![0u32, 1, 2, 15, 16, 17, 31, 32, 33, 63, 64, 65]),
+        4 => 0u32..300,
+        3 => 300u32..=(max_big / 8).max(301),
+        2 => (max_big / 8)..=max_big,
+        1 => Just(max_big),
+    ];
+    (len, 0u8..4, any::<u64>(), 1u32..300)
+        .prop_map(|(len, kind, seed, p)| match kind {
+            0 => Piece::Zeros { len },
+            1 => Piece::Period { seed, p, skip: 0, len },
+            _ => Piece::Rand { seed, skip: 0, len },
+        })
+        .boxed()
+}
+
+fn crypto_strategy(_ctx: &Ctx) -> BoxedStrategy<CryptoCase> {
+    let level = prop_oneof![
+        4 => Just(None),
+        3 => (0i32..=3).prop_map(Some),
+        2 => (-7i32..=-1).prop_map(Some),
+        2 => (4i32..=15).prop_map(Some),
+        1 => (16i32..=22).prop_map(Some),
+    ];
+    let mutn = prop_oneof![
+        6 => (0u8..3, any::<u16>()).prop_map(|(region, sel)| Mutn::Flip { region, sel }),
+        2 => any::<u16>().prop_map(|sel| Mutn::Truncate { sel }),
+        2 => (0u8..6).prop_map(Mutn::TruncateTo),
+        2 => prop::collection::vec(any::<u8>(), 1..20).prop_map(Mutn::Extend),
+        3 => (any::<u16>(), any::<u16>()).prop_map(|(a, b)| Mutn::Splice { a, b }),
+        1 => any::<u64>().prop_map(Mutn::OtherKey),
+    ];
+    let garbage = prop_oneof![
+        3 => prop::collection::vec(prop_oneof![3 => 0u8..4, 1 => any::<u8>()], 0..120).prop_map(Garbage::Raw),
+        2 => prop::collection::vec(any::<u8>(), 0..64).prop_map(Garbage::Raw),
+        2 => (any::<u64>(), 0u16..3000).prop_map(|(seed, len)| Garbage::Rand { seed, len }),
+        3 => (any::<u16>(), 1u8..=255).prop_map(|(pos, xor)| Garbage::Frame { pos, xor }),
+    ];
+    (
+        any::<u64>(),
+        sized_piece(65_536),
+        sized_piece(4096),
+        level,
+        any::<u64>(),
+        prop::collection::vec(mutn, 0..6),
+        prop::collection::vec(prop_oneof![Just(1u32), 1u32..100_000, Just(u32::MAX)], 0..3),
+        garbage,
+    )
+        .prop_map(|(key_seed, plain, other, level, nonce_seed, muts, wrong_len, garbage)| CryptoCase {
+            key_seed,
+            plain,
+            other,
+            level,
+            nonce_seed,
+            muts,
+            wrong_len,
+            garbage,
+        })
+        .boxed()
+}
+
+fn key_of_seed(seed: u64) -> Key64 {
+    let mut k = [0u8; 64];
+    let mut z = seed;
+    for chunk in k.chunks_mut(8) {
+        z = splitmix(z);
+        chunk.copy_from_slice(&z.to_le_bytes());
+    }
+    k
+}
+
+fn piece_bytes(p: &Piece) -> Vec<u8> {
+    let mut v = Vec::with_capacity(p.len());
+    p.write_to(&mut v);
+    v
+}
+
+/// library call that must return Ok
+fn must<T>(what: &str, r: Result<rustic_core::RusticResult<T>, String>) -> Result<T, String> {
+    match r {
+        Ok(Ok(v)) => Ok(v),
+        Ok(Err(e)) => Err(format!("{what} returned an error: {}", estr(&e))),
+        Err(p) => Err(format!("{what} panicked: {p}")),
+    }
+}
+
+/// library call on damaged input: must return Err (a panic is reported as such)
+fn must_reject<T>(what: &str, r: Result<rustic_core::RusticResult<T>, String>) -> Result<(), String> {
+    match r {
+        Ok(Ok(_)) => Err(format!("{what} was accepted")),
+        Ok(Err(_)) => Ok(()),
+        Err(p) => Err(format!("{what} panicked instead of returning an error: {p}")),
+    }
+}
+
+/// library call on arbitrary input: anything but a panic
+fn no_panic<T>(what: &str, r: Result<rustic_core::RusticResult<T>, String>) -> Result<Option<T>, String> {
+    match r {
+        Ok(r) => Ok(r.ok()),
+        Err(p) => Err(format!("{what} panicked on arbitrary input: {p}")),
+    }
+}
+
+fn crypto_checks(c: &CryptoCase, out: &mut Outcome) -> Result<(), String> {
+    let key = key_of_seed(c.key_seed);
+    let p = piece_bytes(&c.plain);
+    let p2 = piece_bytes(&c.other);
+    let mut nseed = c.nonce_seed | 1;
+    let my_nonce = fmt::next_nonce(&mut nseed);
+
+    // --- message level
+    let enc = must("encrypt", guarded(|| encrypt(&key, &p)))?;
+    if enc.len() != p.len() + 32 {
+        return Err(format!("encrypt: {} plaintext bytes gave {} stored bytes, expected +32", p.len(), enc.len()));
+    }
+    if must("decrypt(encrypt(p))", guarded(|| decrypt(&key, &enc)))? != p {
+        return Err("decrypt(encrypt(p)) differs from p".into());
+    }
+    match open_message(&key, &enc) {
+        Ok(x) if x == p => {}
+        Ok(_) => return Err("the independent decoder decrypts the library's message to different bytes".into()),
+        Err(e) => return Err(format!("the independent decoder rejects the library's message: {e}")),
+    }
+    let mine = seal_message(&key, &my_nonce, &p);
+    if must("decrypt of an independently sealed message", guarded(|| decrypt(&key, &mine)))? != p {
+        return Err("decrypt of an independently sealed message differs from the plaintext".into());
+    }
+    let enc_again = must("encrypt", guarded(|| encrypt(&key, &p)))?;
+    if enc_again[..16] == enc[..16] {
+        return Err(format!("two encryptions used the same nonce {}", hex::encode(&enc[..16])));
+    }
+    let enc2 = must("encrypt", guarded(|| encrypt(&key, &p2)))?;
+    if enc2[..16] == enc[..16] || enc2[..16] == enc_again[..16] {
+        return Err(format!("two encryptions used the same nonce {}", hex::encode(&enc2[..16])));
+    }
+
+    // --- mutation script: every mutated message must be refused
+    let n = enc.len();
+    for (i, m) in c.muts.iter().enumerate() {
+        let (label, bad, k2): (String, Vec<u8>, Key64) = match m {
+            Mutn::Flip { region, sel } => {
+                let (lo, hi) = match region {
+                    0 => (0, 16),
+                    1 if n > 32 => (16, n - 16),
+                    1 => (0, n),
+                    _ => (n - 16, n),
+                };
+                let bit = pick_idx(*sel, (hi - lo) * 8);
+                let mut b = enc.clone();
+                b[lo + bit / 8] ^= 1 << (bit % 8);
+                (format!("bit {} of byte {} flipped", bit % 8, lo + bit / 8), b, key)
+            }
+            Mutn::Truncate { sel } => {
+                let keep = pick_idx(*sel, n);
+                (format!("truncated to {keep} bytes"), enc[..keep].to_vec(), key)
+            }
+            Mutn::TruncateTo(k) => {
+                let keep = [0usize, 1, 15, 16, 31, n - 1][usize::from(*k) % 6].min(n - 1);
+                (format!("truncated to {keep} bytes"), enc[..keep].to_vec(), key)
+            }
+            Mutn::Extend(extra) => {
+                let mut b = enc.clone();
+                b.extend_from_slice(extra);
+                (format!("extended by {} bytes", extra.len()), b, key)
+            }
+            Mutn::Splice { a, b } => {
+                let i1 = pick_idx(*a, n + 1);
+                let i2 = pick_idx(*b, enc2.len() + 1);
+                let mut s = enc[..i1].to_vec();
+                s.extend_from_slice(&enc2[i2..]);
+                if s == enc || s == enc2 {
+                    continue;
+                }
+                (format!("first {i1} bytes + bytes {i2}.. of a second valid message"), s, key)
+            }
+            Mutn::OtherKey(s) => {
+                let k2 = key_of_seed(*s);
+                if k2 == key {
+                    continue;
+                }
+                ("unchanged but decrypted with another key".to_string(), enc.clone(), k2)
+            }
+        };
+        must_reject(
+            &format!("mutation #{i}: a message of {n} bytes, {label},"),
+            guarded(|| decrypt(&k2, &bad)),
+        )?;
+        // my decoder agrees (keeps the oracle honest)
+        if open_message(&k2, &bad).is_ok() {
+            return Err(format!("harness: the independent decoder accepts mutation #{i} ({label})"));
+        }
+    }
+
+    // --- file and blob framing
+    let be: Arc<dyn WriteBackend> = Arc::new(Storage::new().handle());
+    let codec = Codec::new(be, &key, c.level);
+    let mut file = Vec::with_capacity(p.len() + 1);
+    file.push(if c.nonce_seed & 2 == 0 { b'{' } else { b'[' });
+    file.extend_from_slice(&p);
+    let ef = must("encode_file", guarded(|| codec.encode_file(&file)))?;
+    if must("decode_file(encode_file(f))", guarded(|| codec.decode_file(&ef)))? != file {
+        return Err("decode_file(encode_file(f)) differs from f".into());
+    }
+    match fmt::decode_file(&key, &ef) {
+        Ok(x) if x == file => {}
+        Ok(_) => return Err("the independent decoder decodes the library's repository file to different bytes".into()),
+        Err(e) => return Err(format!("the independent decoder rejects the library's repository file: {e}")),
+    }
+    let inner = open_message(&key, &ef).map_err(|e| format!("file message: {e}"))?;
+    match c.level {
+        None if inner != file => return Err("without compression the message plaintext is not the file".into()),
+        Some(_) if inner.first() != Some(&2) => return Err("compressed file plaintext does not start with the byte 2".into()),
+        _ => {}
+    }
+    let mine_f = fmt::encode_file(&key, &my_nonce, &file, c.level);
+    if must("decode_file of an independently encoded file", guarded(|| codec.decode_file(&mine_f)))? != file {
+        return Err("decode_file of an independently encoded file differs".into());
+    }
+
+    let (eb, plen, ul) = must("encode_blob", guarded(|| codec.encode_blob(&p)))?;
+    if plen as usize != p.len() {
+        return Err(format!("encode_blob reports length {plen} for {} bytes", p.len()));
+    }
+    let want_ul = if c.level.is_some() { NonZeroU32::new(p.len() as u32) } else { None };
+    if ul != want_ul {
+        return Err(format!("encode_blob reports uncompressed length {ul:?}, expected {want_ul:?}"));
+    }
+    // An empty blob cannot carry "compressed" in the format (uncompressed length 0 is not
+    // representable); the library never produces empty blobs. Not judged.
+    let empty_compressed = p.is_empty() && c.level.is_some();
+    if empty_compressed {
+        *out = std::mem::take(out).class("empty_blob_with_compression_not_judged");
+    } else {
+        if must("decode_blob(encode_blob(p))", guarded(|| codec.decode_blob(&eb, ul)))?[..] != p[..] {
+            return Err("decode_blob(encode_blob(p)) differs from p".into());
+        }
+        let entry = TrailerEntry {
+            tpe: BType::Data,
+            id: sha256(&p),
+            offset: 0,
+            length: eb.len() as u32,
+            uncompressed_length: ul.map(NonZeroU32::get),
+        };
+        match fmt::decode_blob(&key, &eb, &entry) {
+            Ok(x) if x == p => {}
+            Ok(_) => return Err("the independent decoder decodes the library's blob to different bytes".into()),
+            Err(e) => return Err(format!("the independent decoder rejects the library's blob: {e}")),
+        }
+        let stored = match c.level {
+            None => p.clone(),
+            Some(l) => zstd_encode(&p, l),
+        };
+        let mine_b = seal_message(&key, &my_nonce, &stored);
+        if must("decode_blob of an independently encoded blob", guarded(|| codec.decode_blob(&mine_b, ul)))?[..] != p[..] {
+            return Err("decode_blob of an independently encoded blob differs".into());
+        }
+        if let Some(u) = ul {
+            let mut wrong: Vec<u32> = vec![u.get().wrapping_add(1), u.get() - 1];
+            wrong.extend(c.wrong_len.iter().copied());
+            for w in wrong {
+                let Some(w) = NonZeroU32::new(w) else { continue };
+                if w == u {
+                    continue;
+                }
+                must_reject(
+                    &format!("a blob of {} bytes read with uncompressed length {w}", u.get()),
+                    guarded(|| codec.decode_blob(&eb, Some(w))),
+                )?;
+            }
+            *out = std::mem::take(out).class("wrong_uncompressed_length_tried");
+        }
+    }
+
+    // --- arbitrary bytes never panic
+    let g: Vec<u8> = match &c.garbage {
+        Garbage::Raw(v) => v.clone(),
+        Garbage::Rand { seed, len } => piece_bytes(&Piece::Rand { seed: *seed, skip: 0, len: u32::from(*len) }),
+        Garbage::Frame { pos, xor } => {
+            let mut z = zstd_encode(&p2, c.level.unwrap_or(3));
+            let at = pick_idx(*pos, z.len());
+            z[at] ^= *xor;
+            z
+        }
+    };
+    let some_len = NonZeroU32::new(p2.len() as u32 | 1);
+    _ = no_panic("decrypt", guarded(|| decrypt(&key, &g)))?;
+    _ = no_panic("decode_file", guarded(|| codec.decode_file(&g)))?;
+    _ = no_panic("decode_blob", guarded(|| codec.decode_blob(&g, None)))?;
+    _ = no_panic("decode_blob", guarded(|| codec.decode_blob(&g, some_len)))?;
+    _ = no_panic("pack_header_from_binary", guarded(|| pack_header_from_binary(&g)))?;
+    // the same bytes behind a valid MAC reach the decompression / framing code
+    let sealed = seal_message(&key, &my_nonce, &g);
+    _ = no_panic("decode_file of authentic garbage", guarded(|| codec.decode_file(&sealed)))?;
+    _ = no_panic("decode_blob of authentic garbage", guarded(|| codec.decode_blob(&sealed, some_len)))?;
+    let mut g2 = vec![2u8];
+    g2.extend_from_slice(&g);
+    let sealed2 = seal_message(&key, &my_nonce, &g2);
+    _ = no_panic("decode_file of an authentic damaged zstd frame", guarded(|| codec.decode_file(&sealed2)))?;
+    if let Some(d) = no_panic("decode_blob", guarded(|| codec.decode_blob(&sealed, NonZeroU32::new(p2.len() as u32))))? {
+        if !p2.is_empty() && d.len() != p2.len() {
+            return Err("decode_blob returned data whose length is not the uncompressed length it was given".into());
+        }
+    }
+    Ok(())
+}
+
+fn zstd_encode(data: &[u8], level: i32) -> Vec<u8> {
+    // through the independent encoder: strip the file framing again (byte 2 + frame)
+    let k = [0u8; 64];
+    let f = fmt::encode_file(&k, &[0; 16], data, Some(level));
+    let plain = open_message(&k, &f).expect("own message");
+    plain[1..].to_vec()
+}
+
+fn run_crypto(c: &CryptoCase, _ctx: &Ctx) -> Outcome {
+    let mut out = Outcome::pass();
+    let res = crypto_checks(c, &mut out);
+    out = out
+        .class(match c.level {
+            None => "level_none".to_string(),
+            Some(l) if l < 0 => "level_negative".to_string(),
+            Some(l) if l <= 3 => "level_0..3".to_string(),
+            Some(l) if l <= 15 => "level_4..15".to_string(),
+            Some(_) => "level_16..22".to_string(),
+        })
+        .class(match c.plain.len() {
+            0 => "len_0",
+            1..=32 => "len_1..32",
+            33..=4096 => "len_33..4096",
+            _ => "len_>4096",
+        });
+    for m in &c.muts {
+        out = out.class(match m {
+            Mutn::Flip { .. } => "mut_flip",
+            Mutn::Truncate { .. } | Mutn::TruncateTo(_) => "mut_truncate",
+            Mutn::Extend(_) => "mut_extend",
+            Mutn::Splice { .. } => "mut_splice",
+            Mutn::OtherKey(_) => "mut_other_key",
+        });
+    }
+    out.nontrivial = c.plain.len() >= 1 && !c.muts.is_empty();
+    if let Err(e) = res {
+        out.failure = Some(e);
+    }
+    out
+}
+
+// ================================================================== (c) tamper enumeration
+
+#[derive(Debug, Clone, Serialize, Deserialize)]
+pub struct TamperCase {
+    pub cfg: RepoCfg,
+    pub tree: MNode,
+    /// further backups after the first one (edit scripts)
+    pub more: Vec<Vec<Edit>>,
+    /// selectors for fault positions (cycled)
+    pub sel: Vec<u16>,
+    pub append: Vec<u8>,
+    /// also swap every file with every sibling of its type (known finding: never detected)
+    pub swap: bool,
+}
+
+const MAX_FAULTED_FILES: usize = 40;
+/// fraction of the tamper cases that also swap files with their siblings
+const SWAP_WEIGHT: f64 = 0.0; // TEMP-VALIDATION (0.3)
+
+fn tamper_strategy(ctx: &Ctx) -> BoxedStrategy<TamperCase> {
+    let thorough = ctx.tier.is_thorough();
+    // a configuration in which packs have coinciding blob layouts: fixed-size chunks, no
+    // compression, few blobs per pack
+    let aligned = (6u32..11, 1u32..4, 1u64..1_000_000).prop_map(|(k, per_pack, key_seed)| {
+        let size = 1u32 << k;
+        RepoCfg {
+            version: 2,
+            compression: Some(0),
+            chunker: ChunkerCfg::Fixed { size },
+            tree_pack: PackCfg { size: Some(2000), grow: Some(0), limit: None },
+            data_pack: PackCfg { size: Some(per_pack * (size + 32)), grow: Some(0), limit: None },
+            extra_verify: Some(false),
+            poly: super::c06::POLYS[0],
+            key_seed,
+        }
+    });
+    let general = repo_cfg().prop_map(|mut cfg| {
+        // bound the number of packs: no one-blob-per-pack configurations here
+        for p in [&mut cfg.tree_pack, &mut cfg.data_pack] {
+            if p.size.is_some_and(|s| s < 3000) {
+                p.size = Some(3000);
+            }
+        }
+        if matches!(cfg.chunker, ChunkerCfg::Fixed { size } if size < 64) {
+            cfg.chunker = ChunkerCfg::Fixed { size: 64 };
+        }
+        cfg
+    });
+    prop_oneof![2 => general, 1 => aligned]
+        .prop_flat_map(move |cfg| {
+            let p = TreeParams {
+                unit: cfg.unit().min(4096),
+                file_cap: if thorough { 60_000 } else { 20_000 },
+                max_children: 3,
+                depth: 2,
+            };
+            (
+                Just(cfg),
+                tree(p),
+                prop::collection::vec(prop::collection::vec(crate::r#gen::edit(p), 1..3), 0..=2),
+                prop::collection::vec(any::<u16>(), 8),
+                prop::collection::vec(any::<u8>(), 1..6),
+                prop::bool::weighted(SWAP_WEIGHT),
+            )
+        })
+        .prop_map(|(cfg, tree, more, sel, append, swap)| TamperCase {
+            cfg,
+            tree,
+            more,
+            sel,
+            append,
+            swap,
+        })
+        .boxed()
+}
+
+struct Expect {
+    /// snapshot id -> (SnapshotFile as JSON incl. id, decoded file bytes)
+    snaps: BTreeMap<Id32, (Value, Vec<u8>)>,
+    /// index id -> decoded file bytes
+    indexes: BTreeMap<Id32, Vec<u8>>,
+    /// pack id -> trailer entries
+    packs: BTreeMap<Id32, Vec<TrailerEntry>>,
+    live: Vec<LiveSnap>,
+}
+
+#[derive(Default)]
+struct Obs {
+    /// a read returned something else than the model
+    wrong: Option<String>,
+    failed: u32,
+    same: u32,
+    panics: u32,
+}
+
+impl Obs {
+    fn err(&mut self, e: &str) {
+        self.failed += 1;
+        // (library error texts carry backtraces: only the first line says whether it was a panic)
+        let l = e.lines().next().unwrap_or("");
+        if l.starts_with("panic") || l.contains(": panic: ") {
+            self.panics += 1;
+        }
+    }
+    fn wrong(&mut self, msg: String) {
+        if self.wrong.is_none() {
+            self.wrong = Some(msg);
+        }
+    }
+}
+
+fn snap_value(s: &SnapshotFile) -> Value {
+    serde_json::to_value(s).expect("snapshot serialises")
+}
+
+fn g2<T>(what: &str, r: Result<rustic_core::RusticResult<T>, String>) -> Result<T, String> {
+    match r {
+        Ok(Ok(v)) => Ok(v),
+        Ok(Err(e)) => Err(format!("{what}: {}", estr(&e))),
+        Err(p) => Err(format!("{what}: panic: {p}")),
+    }
+}
+
+/// run the read paths that touch a file of type `t` on the (tampered) storage
+fn read_paths(storage: &Arc<Storage>, cfg: &RepoCfg, ex: &Expect, t: u8, blobs: &[(BType, Id32)]) -> Obs {
+    let mut o = Obs::default();
+    let repo = match guarded(|| open_repo(storage.handle(), cfg)) {
+        Ok(Ok(r)) => r,
+        Ok(Err(e)) => {
+            o.err(&e);
+            return o;
+        }
+        Err(p) => {
+            o.err(&format!("panic: {p}"));
+            return o;
+        }
+    };
+    if t == 0 || t == 3 {
+        match g2("get_all_snapshots", guarded(|| repo.get_all_snapshots())) {
+            Err(e) => o.err(&e),
+            Ok(list) => {
+                let got: BTreeMap<Id32, Value> = list.iter().map(|s| (id_bytes(&s.id), snap_value(s))).collect();
+                let want: BTreeMap<Id32, Value> = ex.snaps.iter().map(|(k, v)| (*k, v.0.clone())).collect();
+                if got == want && list.len() == want.len() {
+                    o.same += 1;
+                } else {
+                    let which = want
+                        .iter()
+                        .find(|(k, v)| got.get(*k) != Some(*v))
+                        .map(|(k, _)| hex8(k))
+                        .unwrap_or_default();
+                    o.wrong(format!(
+                        "get_all_snapshots returned {} snapshots without an error, but the content listed under id {which} is not what was stored under that id",
+                        list.len()
+                    ));
+                }
+            }
+        }
+    }
+    if t == 3 {
+        for (id, (want, want_bytes)) in &ex.snaps {
+            let hexid = hex::encode(id);
+            match g2("get_snapshots", guarded(|| repo.get_snapshots(&[hexid.as_str()]))) {
+                Err(e) => o.err(&e),
+                Ok(v) => {
+                    if v.len() == 1 && snap_value(&v[0]) == *want {
+                        o.same += 1;
+                    } else {
+                        o.wrong(format!(
+                            "get_snapshots([{}]) returned a snapshot that is not the one stored under this id (tree {} instead of {})",
+                            hex8(id),
+                            v.first().map(|s| s.tree.to_hex().as_str().to_string()).unwrap_or_default(),
+                            want["tree"].as_str().unwrap_or("?")
+                        ));
+                    }
+                }
+            }
+            match g2("cat_file", guarded(|| repo.cat_file(FileType::Snapshot, &hexid))) {
+                Err(e) => o.err(&e),
+                Ok(b) if b[..] == want_bytes[..] => o.same += 1,
+                Ok(_) => o.wrong(format!("cat_file(snapshot {}) returned other content than what was stored under this id", hex8(id))),
+            }
+        }
+    }
+    if t == 1 {
+        for (id, want_bytes) in &ex.indexes {
+            let hexid = hex::encode(id);
+            match g2("cat_file", guarded(|| repo.cat_file(FileType::Index, &hexid))) {
+                Err(e) => o.err(&e),
+                Ok(b) if b[..] == want_bytes[..] => o.same += 1,
+                Ok(_) => o.wrong(format!("cat_file(index {}) returned other content than what was stored under this id", hex8(id))),
+            }
+        }
+    }
+    if t == 3 {
+        return o;
+    }
+    let full = match g2("to_indexed", guarded(|| repo.to_indexed())) {
+        Ok(f) => f,
+        Err(e) => {
+            o.err(&e);
+            return o;
+        }
+    };
+    for (i, l) in ex.live.iter().enumerate() {
+        match read_snapshot(&full, &l.snap, true) {
+            Err(e) => o.err(&e),
+            Ok(got) => match compare(&l.model, &got, &CmpOpts { full_meta: true, content: true }) {
+                None => o.same += 1,
+                Some(d) => o.wrong(format!("ls + dump of snapshot #{i} returned without an error but not the content that was backed up: {d}")),
+            },
+        }
+    }
+    for (bt, id) in blobs {
+        let tpe = match bt {
+            BType::Data => BlobType::Data,
+            BType::Tree => BlobType::Tree,
+        };
+        let hexid = hex::encode(id);
+        match g2("cat_blob", guarded(|| full.cat_blob(tpe, &hexid))) {
+            Err(e) => o.err(&e),
+            Ok(b) if sha256(&b) == *id => o.same += 1,
+            Ok(_) => o.wrong(format!("cat_blob({} {}) returned bytes that do not hash to the requested id", bt.as_str(), hex8(id))),
+        }
+    }
+    o
+}
+
+#[derive(Debug, Clone)]
+struct Fault {
+    label: String,
+    /// new contents: (type, id) -> bytes
+    put: Vec<((u8, Id), Vec<u8>)>,
+    is_swap: bool,
+}
+
+fn faults_for(c: &TamperCase, key: &Key64, t: u8, id: &Id, raw: &[u8], siblings: &[(Id, bytes::Bytes)], salt: usize) -> Vec<Fault> {
+    let n = raw.len();
+    let sel = |j: usize| c.sel[(salt + j) % c.sel.len()].wrapping_add((salt as u16).wrapping_mul(7919));
+    let mut regions: Vec<(&'static str, usize, usize)> = Vec::new();
+    if t == 4 {
+        if let Ok(info) = parse_pack(key, raw) {
+            let hl = info.header_len as usize;
+            if !info.entries.is_empty() {
+                let e = &info.entries[pick_idx(sel(0), info.entries.len())];
+                let (s, l) = (e.offset as usize, e.length as usize);
+                regions.push(("nonce of a blob", s, s + 16));
+                if l > 32 {
+                    regions.push(("body of a blob", s + 16, s + l - 16));
+                }
+                regions.push(("tag of a blob", s + l - 16, s + l));
+            }
+            regions.push(("pack header", n - 4 - hl, n - 4));
+            regions.push(("header length field", n - 4, n));
+        }
+    } else {
+        regions.push(("nonce", 0, 16));
+        if n > 32 {
+            regions.push(("body", 16, n - 16));
+        }
+        regions.push(("tag", n - 16, n));
+    }
+    let mut out = Vec::new();
+    let one = |label: String, data: Vec<u8>| Fault {
+        label,
+        put: vec![((t, *id), data)],
+        is_swap: false,
+    };
+    for (j, (name, lo, hi)) in regions.iter().enumerate() {
+        let bit = pick_idx(sel(1 + j), (hi - lo) * 8);
+        let mut d = raw.to_vec();
+        d[lo + bit / 8] ^= 1 << (bit % 8);
+        out.push(one(format!("bit {} of byte {} ({name}) flipped", bit % 8, lo + bit / 8), d));
+    }
+    let mut cuts = vec![0usize, 1, n - 1];
+    if n > 3 {
+        cuts.push(1 + pick_idx(sel(7), n - 2));
+    }
+    cuts.sort_unstable();
+    cuts.dedup();
+    for k in cuts {
+        out.push(one(format!("truncated from {n} to {k} bytes"), raw[..k].to_vec()));
+    }
+    let mut d = raw.to_vec();
+    d.extend_from_slice(&c.append);
+    out.push(one(format!("extended by {} bytes", c.append.len()), d));
+    if c.swap {
+        for (sid, sraw) in siblings {
+            if sid == id || sraw[..] == raw[..] {
+                continue;
+            }
+            out.push(Fault {
+                label: format!("content swapped with {} {}", tname(t), hex8(&id_bytes(sid))),
+                put: vec![((t, *id), sraw.to_vec()), ((t, *sid), raw.to_vec())],
+                is_swap: true,
+            });
+        }
+    }
+    out
+}
+
+fn run_tamper(c: &TamperCase, _ctx: &Ctx) -> Outcome {
+    let mut out = Outcome::pass();
+    if c.swap {
+        // input-side predicate of the known finding: the fault list contains swaps with siblings
+        out = out.known("swap_sibling").class("with_swaps");
+    }
+    macro_rules! fail {
+        ($($arg:tt)*) => {{
+            out.failure = Some(format!($($arg)*));
+            return out;
+        }};
+    }
+    if c.sel.is_empty() {
+        return out.skip("no selectors");
+    }
+    let key = c.cfg.key64();
+    // --- pristine repository, built once
+    let mut w = match World::new(&c.cfg, &c.tree) {
+        Ok(w) => w,
+        Err(e) => return out.skip(format!("init failed (judged by C01/C18): {}", crate::engine::first_line(&e))),
+    };
+    let first = HOp::Backup { edits: vec![], parent: false };
+    let more: Vec<HOp> = c.more.iter().map(|e| HOp::Backup { edits: e.clone(), parent: false }).collect();
+    for op in std::iter::once(&first).chain(more.iter()) {
+        if let Err(e) = w.step(op) {
+            return out.skip(format!("pristine backup failed (judged by C01): {}", crate::engine::first_line(&e)));
+        }
+    }
+    if let Err(e) = w.verify_snapshots() {
+        return out.skip(format!("pristine repository does not read back (judged by C01): {}", crate::engine::first_line(&e)));
+    }
+    let files = w.storage.files();
+    let mut ex = Expect {
+        snaps: BTreeMap::new(),
+        indexes: BTreeMap::new(),
+        packs: BTreeMap::new(),
+        live: w.live.clone(),
+    };
+    {
+        let repo = match open_repo(w.storage.handle(), &c.cfg) {
+            Ok(r) => r,
+            Err(e) => fail!("pristine repository: {e}"),
+        };
+        for l in &w.live {
+            let hexid = l.snap.id.to_hex().as_str().to_string();
+            let got = match g2("get_snapshots on the pristine repository", guarded(|| repo.get_snapshots(&[hexid.as_str()]))) {
+                Ok(v) if v.len() == 1 => v.into_iter().next().unwrap(),
+                Ok(v) => fail!("pristine repository: get_snapshots returned {} entries for one id", v.len()),
+                Err(e) => fail!("{e}"),
+            };
+            if got.id != l.snap.id || got.tree != l.snap.tree || got.hostname != l.snap.hostname {
+                fail!("pristine repository: get_snapshots([{hexid}]) does not return the snapshot that backup reported");
+            }
+            let raw = &files[&(3, *l.snap.id)];
+            let dec = match fmt::decode_file(&key, raw) {
+                Ok(d) => d,
+                Err(e) => fail!("pristine snapshot file: {e}"),
+            };
+            // anchor: the independently decoded file names the same tree
+            let v: Value = serde_json::from_slice(&dec).unwrap_or(Value::Null);
+            if v["tree"].as_str() != Some(l.snap.tree.to_hex().as_str()) {
+                fail!("pristine snapshot file {hexid}: independently decoded tree id differs from what backup reported");
+            }
+            _ = ex.snaps.insert(id_bytes(&l.snap.id), (snap_value(&got), dec));
+        }
+    }
+    for ((t, id), raw) in &files {
+        match t {
+            1 => match fmt::decode_file(&key, raw) {
+                Ok(d) => _ = ex.indexes.insert(id_bytes(id), d),
+                Err(e) => fail!("pristine index file: {e}"),
+            },
+            4 => match parse_pack(&key, raw) {
+                Ok(info) => _ = ex.packs.insert(id_bytes(id), info.entries),
+                Err(e) => fail!("pristine pack: {e}"),
+            },
+            _ => {}
+        }
+    }
+
+    // --- which files are faulted
+    let mut targets: Vec<(u8, Id)> = files.keys().filter(|(t, _)| *t != KEY_T).copied().collect();
+    let total_files = targets.len();
+    if targets.len() > MAX_FAULTED_FILES {
+        let (keep, packs): (Vec<(u8, Id)>, Vec<(u8, Id)>) = targets.iter().copied().partition(|(t, _)| *t != 4);
+        let room = MAX_FAULTED_FILES.saturating_sub(keep.len()).max(4);
+        let start = pick_idx(c.sel[0], packs.len());
+        let mut chosen: Vec<(u8, Id)> = keep;
+        for k in 0..room.min(packs.len()) {
+            // evenly spread, starting at a generated pack
+            chosen.push(packs[(start + k * packs.len() / room.min(packs.len())) % packs.len()]);
+        }
+        chosen.sort();
+        chosen.dedup();
+        targets = chosen;
+        out = out.class("more_files_than_the_cap:packs_sampled");
+    }
+
+    let mut detected_by_type = [0u32; 5];
+    let (mut n_faults, mut n_detected, mut n_same, mut n_panics) = (0u64, 0u64, 0u64, 0u64);
+    for (fi, (t, id)) in targets.iter().enumerate() {
+        let raw = &files[&(*t, *id)];
+        let siblings: Vec<(Id, bytes::Bytes)> = files
+            .iter()
+            .filter(|((st, _), _)| st == t)
+            .map(|((_, sid), b)| (*sid, b.clone()))
+            .collect();
+        for f in faults_for(c, &key, *t, id, raw, &siblings, fi) {
+            let fork = w.storage.fork();
+            let mut blobs: Vec<(BType, Id32)> = Vec::new();
+            for ((ft, fid), data) in &f.put {
+                fork.put(crate::membe::tfrom(*ft), *fid, data.clone());
+                if *ft == 4 {
+                    if let Some(es) = ex.packs.get(&id_bytes(fid)) {
+                        blobs.extend(es.iter().map(|e| (e.tpe, e.id)));
+                    }
+                }
+            }
+            debug_assert_eq!(tidx(crate::membe::tfrom(*t)), *t);
+            let o = read_paths(&fork, &c.cfg, &ex, *t, &blobs);
+            n_faults += 1;
+            n_panics += u64::from(o.panics);
+            if let Some(wrong) = o.wrong {
+                fail!(
+                    "{} {} ({} bytes) {}: {wrong}",
+                    tname(*t),
+                    hex8(&id_bytes(id)),
+                    raw.len(),
+                    f.label
+                );
+            }
+            if o.failed > 0 {
+                n_detected += 1;
+                detected_by_type[usize::from(*t)] += 1;
+            } else {
+                n_same += 1;
+            }
+            if f.is_swap {
+                out = out.class("swap_executed");
+            }
+        }
+    }
+    out.nontrivial = detected_by_type[4] > 0 && detected_by_type[3] > 0 && detected_by_type[1] > 0;
+    out.class_if(ex.snaps.len() >= 2, "snapshots>=2")
+        .class_if(ex.packs.len() >= 3, "packs>=3")
+        .class_if(matches!(c.cfg.chunker, ChunkerCfg::Fixed { .. }) && (c.cfg.version == 1 || c.cfg.compression == Some(0)), "fixed_chunks_uncompressed")
+        .count("files_in_repository", total_files as u64)
+        .count("files_faulted", targets.len() as u64)
+        .count("faults", n_faults)
+        .count("faults_some_read_failed", n_detected)
+        .count("faults_all_reads_returned_model", n_same)
+        .count("panics_counted_as_failed_reads", n_panics)
+}
+
+// ================================================================== (d) passwords
+
+#[derive(Debug, Clone, Serialize, Deserialize)]
+pub enum KeyFault {
+    Flip(u16, u8),
+    Truncate(u16),
+    Append(Vec<u8>),
+    /// replace the content by the content of another live key file
+    ContentOf(u16),
+    Empty,
+}
+
+#[derive(Debug, Clone, Serialize, Deserialize)]
+pub enum POp {
+    /// add a key for password #i of the pool
+    Add(u8),
+    /// delete the selected live key
+    Delete(u16),
+    /// open with the password of the selected live key
+    Open(u16),
+    OpenMaster,
+    /// open with a pool password that is not live (never added, or removed)
+    OpenNotLive(u16),
+    /// open with a live password changed in one place
+    OpenMangled(u16, u8),
+    /// damage the selected live key file on a copy of the repository, open with its password
+    OpenTampered(u16, KeyFault),
+}
+
+#[derive(Debug, Clone, Serialize, Deserialize)]
+pub struct PwCase {
+    pub key_seed: u64,
+    /// password pool, made distinct by their position; #0 initialises the repository
+    pub pool: Vec<String>,
+    pub tree: MNode,
+    pub ops: Vec<POp>,
+}
+
+fn pw_strategy(ctx: &Ctx) -> BoxedStrategy<PwCase> {
+    let max_ops = if ctx.tier.is_thorough() { 8 } else { 6 };
+    let pw = prop_oneof![
+        3 => "[ -~]{1,12}",
+        1 => "[a-z]{1,3}(ä|ß|日本|🦀|é)[ -~]{0,4}",
+        1 => "[0-9]{4,6}",
+    ];
+    let fault = prop_oneof![
+        4 => (any::<u16>(), 0u8..8).prop_map(|(p, b)| KeyFault::Flip(p, b)),
+        1 => any::<u16>().prop_map(KeyFault::Truncate),
+        1 => prop::collection::vec(any::<u8>(), 1..4).prop_map(KeyFault::Append),
+        1 => any::<u16>().prop_map(KeyFault::ContentOf),
+        1 => Just(KeyFault::Empty),
+    ];
+    let op = prop_oneof![
+        3 => (0u8..4).prop_map(POp::Add),
+        3 => any::<u16>().prop_map(POp::Delete),
+        3 => any::<u16>().prop_map(POp::Open),
+        1 => Just(POp::OpenMaster),
+        2 => any::<u16>().prop_map(POp::OpenNotLive),
+        1 => (any::<u16>(), any::<u8>()).prop_map(|(s, h)| POp::OpenMangled(s, h)),
+        2 => (any::<u16>(), fault).prop_map(|(s, f)| POp::OpenTampered(s, f)),
+    ];
+    let p = TreeParams { unit: 512, file_cap: 3000, max_children: 2, depth: 1 };
+    (
+        1u64..1_000_000,
+        prop::collection::vec(pw, 4),
+        tree(p),
+        prop::collection::vec(op, 3..=max_ops),
+    )
+        .prop_map(|(key_seed, pool, tree, ops)| PwCase {
+            key_seed,
+            pool: pool.into_iter().enumerate().map(|(i, s)| format!("{i}{s}")).collect(),
+            tree,
+            ops,
+        })
+        .boxed()
+}
+
+fn open_with(storage: &Arc<Storage>, cred: &Credentials) -> Result<RepoOpen, String> {
+    let be = storage.handle();
+    match guarded(|| {
+        Repository::new(&repo_opts(), &backends(be))
+            .map_err(|e| estr(&e))?
+            .open(cred)
+            .map_err(|e| estr(&e))
+    }) {
+        Ok(r) => r,
+        Err(p) => Err(format!("panic: {p}")),
+    }
+}
+
+/// the handle decrypts with the real master key and reads the one snapshot of the repository
+fn handle_reads(repo: RepoOpen, master: &Key64, snap: &SnapshotFile, model: &Flat) -> Result<(), String> {
+    if key64_of(&repo.key()) != *master {
+        return Err("the handle holds a different master key".into());
+    }
+    let snaps = g2("get_all_snapshots", guarded(|| repo.get_all_snapshots()))?;
+    if snaps.len() != 1 || snaps[0].id != snap.id || snaps[0].tree != snap.tree {
+        return Err("the handle does not list the snapshot of the repository".into());
+    }
+    let full = g2("to_indexed", guarded(|| repo.to_indexed()))?;
+    let got = read_snapshot(&full, snap, true)?;
+    match compare(model, &got, &CmpOpts { full_meta: true, content: true }) {
+        None => Ok(()),
+        Some(d) => Err(format!("the handle reads other content: {d}")),
+    }
+}
+
+/// byte positions of a key file that may be damaged: everything except the digits of the scrypt
+/// cost parameters (inflating them is a resource question, not one of this property)
+fn key_file_positions(raw: &[u8]) -> Vec<usize> {
+    let mut banned = vec![false; raw.len()];
+    for pat in [&b"\"N\":"[..], &b"\"r\":"[..], &b"\"p\":"[..]] {
+        if let Some(at) = raw.windows(pat.len()).position(|w| w == pat) {
+            let mut i = at + pat.len();
+            // the separator before and after the number too (a digit may appear from a flipped ',')
+            banned[i - 1] = true;
+            while i < raw.len() && (raw[i].is_ascii_digit() || raw[i] == b' ') {
+                banned[i] = true;
+                i += 1;
+            }
+            if i < raw.len() {
+                banned[i] = true;
+            }
+        }
+    }
+    (0..raw.len()).filter(|i| !banned[*i]).collect()
+}
+
+fn run_pw(c: &PwCase, _ctx: &Ctx) -> Outcome {
+    let mut out = Outcome::pass();
+    macro_rules! fail {
+        ($($arg:tt)*) => {{
+            out.failure = Some(format!($($arg)*));
+            return out;
+        }};
+    }
+    if c.pool.len() < 4 {
+        return out.skip("pool too small");
+    }
+    let mut cfg = RepoCfg::simple();
+    cfg.key_seed = c.key_seed;
+    let storage = Storage::new();
+    let be = storage.handle();
+    let pw0 = c.pool[0].clone();
+    let cf = cfg.config_file();
+    let init = guarded(|| {
+        Repository::new(&repo_opts(), &backends(be))
+            .map_err(|e| estr(&e))?
+            .init_with_config(&Credentials::password(&pw0), &KeyOptions::default(), cf)
+            .map_err(|e| estr(&e))
+    });
+    let repo = match init {
+        Ok(Ok(r)) => r,
+        Ok(Err(e)) => fail!("init with a password failed: {e}"),
+        Err(p) => fail!("init with a password panicked: {p}"),
+    };
+    let master_mk = repo.key();
+    let master = key64_of(&master_mk);
+    let Some(first_key) = *repo.key_id() else {
+        fail!("init with a password reports no key id");
+    };
+    let key_files = storage.ids(FileType::Key);
+    if key_files != vec![*first_key] {
+        fail!("init with a password: expected exactly the reported key file, found {}", key_files.len());
+    }
+    let snap = {
+        let ids = match g2("to_indexed_ids", guarded(|| repo.to_indexed_ids())) {
+            Ok(r) => r,
+            Err(e) => fail!("{e}"),
+        };
+        match backup_tree(&ids, &c.tree, &ReadSchedule::default(), &force_opts(), snap_template(1_700_000_000, "host", "", "")) {
+            Ok(s) => s,
+            Err(e) => fail!("{e}"),
+        }
+    };
+    let model = flatten(&c.tree);
+    let master_cred = Credentials::Masterkey(master_mk);
+
+    // model: live key files and the pool index of their password
+    let mut live: Vec<(KeyId, usize)> = vec![(first_key, 0)];
+    let mut deleted_before_open = false;
+    let mut any_delete = false;
+    for (i, op) in c.ops.iter().enumerate() {
+        let is_live = |pwi: usize, live: &[(KeyId, usize)]| live.iter().any(|(_, p)| *p == pwi);
+        match op {
+            POp::Add(pi) => {
+                out = out.class("op_add");
+                let pwi = usize::from(*pi) % c.pool.len();
+                let h = match open_with(&storage, &master_cred) {
+                    Ok(h) => h,
+                    Err(e) => fail!("op #{i}: open with the master key failed: {e}"),
+                };
+                let pw = c.pool[pwi].clone();
+                match g2("add_key", guarded(|| h.add_key(&pw, &KeyOptions::default()))) {
+                    Ok(id) => {
+                        if !storage.ids(FileType::Key).contains(&*id) {
+                            fail!("op #{i}: add_key returned an id for which no key file exists");
+                        }
+                        live.push((id, pwi));
+                    }
+                    Err(e) => fail!("op #{i}: {e}"),
+                }
+            }
+            POp::Delete(sel) => {
+                out = out.class("op_delete");
+                if live.is_empty() {
+                    continue;
+                }
+                let k = pick_idx(*sel, live.len());
+                let (id, _) = live.remove(k);
+                let h = match open_with(&storage, &master_cred) {
+                    Ok(h) => h,
+                    Err(e) => fail!("op #{i}: open with the master key failed: {e}"),
+                };
+                if let Err(e) = g2("delete_key", guarded(|| h.delete_key(&id))) {
+                    fail!("op #{i}: {e}");
+                }
+                if storage.ids(FileType::Key).contains(&*id) {
+                    fail!("op #{i}: delete_key returned Ok but the key file is still there");
+                }
+                any_delete = true;
+            }
+            POp::Open(sel) => {
+                out = out.class("op_open_live");
+                if live.is_empty() {
+                    continue;
+                }
+                let (_, pwi) = live[pick_idx(*sel, live.len())];
+                deleted_before_open |= any_delete;
+                match open_with(&storage, &Credentials::password(&c.pool[pwi])) {
+                    Err(e) => fail!("op #{i}: open with the live password #{pwi} failed: {e}"),
+                    Ok(h) => {
+                        if let Err(e) = handle_reads(h, &master, &snap, &model) {
+                            fail!("op #{i}: open with the live password #{pwi}: {e}");
+                        }
+                    }
+                }
+            }
+            POp::OpenMaster => {
+                out = out.class("op_open_master");
+                deleted_before_open |= any_delete;
+                match open_with(&storage, &master_cred) {
+                    Err(e) => fail!("op #{i}: open with the master key failed: {e}"),
+                    Ok(h) => {
+                        if let Err(e) = handle_reads(h, &master, &snap, &model) {
+                            fail!("op #{i}: open with the master key: {e}");
+                        }
+                    }
+                }
+            }
+            POp::OpenNotLive(sel) => {
+                let cands: Vec<usize> = (0..c.pool.len()).filter(|p| !is_live(*p, &live)).collect();
+                if cands.is_empty() {
+                    continue;
+                }
+                out = out.class("op_open_not_live");
+                let pwi = cands[pick_idx(*sel, cands.len())];
+                deleted_before_open |= any_delete;
+                if open_with(&storage, &Credentials::password(&c.pool[pwi])).is_ok() {
+                    fail!(
+                        "op #{i}: the repository opens with password #{pwi}, which belongs to no key file ({} key files are left)",
+                        live.len()
+                    );
+                }
+            }
+            POp::OpenMangled(sel, how) => {
+                if live.is_empty() {
+                    continue;
+                }
+                out = out.class("op_open_mangled");
+                let (_, pwi) = live[pick_idx(*sel, live.len())];
+                let pw = &c.pool[pwi];
+                let mut chars: Vec<char> = pw.chars().collect();
+                match how % 4 {
+                    0 => chars.push(' '),
+                    1 => _ = chars.pop(),
+                    2 => chars.insert(0, 'x'),
+                    _ => {
+                        let k = usize::from(*how) % chars.len();
+                        chars[k] = if chars[k] == 'a' { 'b' } else { 'a' };
+                    }
+                }
+                let bad: String = chars.into_iter().collect();
+                if c.pool.iter().enumerate().any(|(j, p)| *p == bad && is_live(j, &live)) {
+                    continue;
+                }
+                deleted_before_open |= any_delete;
+                if open_with(&storage, &Credentials::password(&bad)).is_ok() {
+                    fail!("op #{i}: the repository opens with a password that differs from the live password #{pwi} in one place");
+                }
+            }
+            POp::OpenTampered(sel, fault) => {
+                if live.is_empty() {
+                    continue;
+                }
+                out = out.class("op_open_tampered_key_file");
+                let (kid, pwi) = live[pick_idx(*sel, live.len())];
+                let fork = storage.fork();
+                let raw = fork.get(FileType::Key, &kid).expect("live key file").to_vec();
+                let new: Vec<u8> = match fault {
+                    KeyFault::Flip(p, b) => {
+                        let pos = key_file_positions(&raw);
+                        let at = pos[pick_idx(*p, pos.len())];
+                        let mut d = raw.clone();
+                        d[at] ^= 1 << (b % 8);
+                        d
+                    }
+                    KeyFault::Truncate(p) => raw[..pick_idx(*p, raw.len())].to_vec(),
+                    KeyFault::Append(x) => {
+                        let mut d = raw.clone();
+                        d.extend_from_slice(x);
+                        d
+                    }
+                    KeyFault::ContentOf(s) => {
+                        let (other, _) = live[pick_idx(*s, live.len())];
+                        fork.get(FileType::Key, &other).expect("live key file").to_vec()
+                    }
+                    KeyFault::Empty => Vec::new(),
+                };
+                // keep the scrypt cost parameters as they were (see key_file_positions)
+                fork.put(FileType::Key, *kid, new);
+                deleted_before_open |= any_delete;
+                // fail, or a handle that is as good as an untampered one
+                if let Ok(h) = open_with(&fork, &Credentials::password(&c.pool[pwi])) {
+                    if let Err(e) = handle_reads(h, &master, &snap, &model) {
+                        fail!("op #{i}: open after damaging key file {} ({fault:?}): {e}", hex8(&id_bytes(&kid)));
+                    }
+                    out = out.class("tampered_key_file_still_opens");
+                }
+            }
+        }
+    }
+    out.nontrivial = deleted_before_open;
+    out
+}
+
+// ================================================================== spec
 
 pub fn spec() -> PropSpec {
     PropSpec {
         id: "C04",
-        level: "exploration",
-        rule: "",
-        assumptions: vec![],
-        subs: vec![],
+        level: "fault_enumeration",
+        rule: "plaintext: configuration (v1/v2, compression unset/0/levels) x source tree with a 24-byte canary in every name, link target, non-hardlinked file content, the backup path, host name, tag and label x history of 1-4 (quick) / 1-8 (thorough) backup/forget/prune operations after an initial backup, with probability 0.35 replayed on a second repository with the same master key; non-trivial = >= 2 packs, >= 50 distinct nonces and >= 1 canary confirmed inside decrypted content. crypto: key x plaintext (0..64 KiB, boundary lengths weighted) x compression level (none, -7..22) x mutation script (bit flip in nonce/body/tag, truncation, extension, splice with a second valid message, other key) x wrong uncompressed lengths x garbage (raw, random, damaged zstd frame); non-trivial = plaintext >= 1 byte and >= 1 mutation. tamper: small repository (1-3 backups; one third with fixed-size chunks, no compression, few blobs per pack) x every stored file except keys (packs sampled beyond 40 files) x {one bit flipped in each of nonce/body/tag (for packs: of a generated blob, in the header, in the length field), truncation to 0/1/generated/len-1, extension, and in 30% of the cases swap with every sibling}; non-trivial = at least one fault each on a pack, a snapshot file and an index file made a read fail. password: 3-6 operations of add_key/delete_key/open(live pw)/open(master key)/open(pool password without key file)/open(mangled live pw)/open after damaging a key file; non-trivial = an open attempt after a delete. Distinct by hash of the case.",
+        assumptions: vec![
+            "cryptographic strength is not tested: AES-CTR / Poly1305 come from the same crate in the library and in the independent decoder; framing, key splitting and usage are independent",
+            "nonce randomness is only observed as non-repetition (also of identical plaintexts under the same key)",
+            "a verbatim copy of a whole message (same nonce and same ciphertext) is accepted only if the history contains a prune with fast-repack",
+            "a read of a damaged repository may fail by Err or by a caught panic; both count as 'failed'",
+            "a damaged read that returns exactly the stored content (e.g. a flipped bit in a pack header that the read never looks at) satisfies the statement",
+            "key files are public by design: damaging one must not let a wrong password in, the right password may fail or work; scrypt cost digits are not damaged (resource question)",
+            "an empty blob with compression on is not judged (the library never stores empty blobs)",
+        ],
+        subs: vec![
+            Box::new(Sub {
+                name: "plaintext",
+                cases_quick: 150,
+                cases_thorough: 4000,
+                max_shrink_iters: 150,
+                strategy: plain_strategy,
+                run: run_plain,
+            }) as Box<dyn DynSub>,
+            Box::new(Sub {
+                name: "crypto",
+                cases_quick: 20_000,
+                cases_thorough: 600_000,
+                max_shrink_iters: 2000,
+                strategy: crypto_strategy,
+                run: run_crypto,
+            }),
+            Box::new(Sub {
+                name: "tamper",
+                cases_quick: 24,
+                cases_thorough: 500,
+                max_shrink_iters: 60,
+                strategy: tamper_strategy,
+                run: run_tamper,
+            }),
+            Box::new(Sub {
+                name: "password",
+                cases_quick: 16,
+                cases_thorough: 320,
+                max_shrink_iters: 30,
+                strategy: pw_strategy,
+                run: run_pw,
+            }),
+        ],
         extra: None,
     }
 }
